@@ -1,0 +1,6 @@
+//go:build !verif
+
+package s2
+
+// verifSchedPoint is a no-op unless built with the tag "verif".
+func verifSchedPoint(k int) {}
